@@ -291,6 +291,122 @@ theorem bezierStar_eq [CharZero α] (nPoints : Nat) (innerR innerH outerR outerH
 
 end Chains
 
+/-! ### the points of a chain -/
+section GenPoints
+set_option linter.unusedVariables false
+variable {α : Type} [Field α] [CharZero α] [Trig α] [HasSqrt α]
+
+/-- one step of `gen_points`: drop the joint (it is repeated by the next curve) and append the samples -/
+def gstep (acc : List (Pt2 α)) (c : Cubic α) : List (Pt2 α) :=
+  acc.dropLast ++ cubicBezier c.start c.control1 c.control2 c.end_ c.segments
+
+def segSum (cs : List (Cubic α)) : Nat := (cs.map (·.segments)).sum
+
+theorem gstep_length (acc : List (Pt2 α)) (c : Cubic α) (h : 1 ≤ acc.length) :
+    (gstep acc c).length = acc.length + c.segments := by
+  simp [gstep, cubic_length]; omega
+
+theorem gfold_length : ∀ (cs : List (Cubic α)) (acc : List (Pt2 α)), 1 ≤ acc.length →
+    (cs.foldl gstep acc).length = acc.length + segSum cs
+  | [], acc, _ => by simp [segSum]
+  | c :: cs, acc, h => by
+    rw [List.foldl_cons, gfold_length cs (gstep acc c) (by rw [gstep_length acc c h]; omega),
+      gstep_length acc c h]
+    simp [segSum]; omega
+
+/-- **point count of a chain**: an open chain has one point per segment plus one, a closed chain
+one per segment (the first point is not repeated) -/
+theorem genPoints_length (ch : Chain α) :
+    ch.genPoints.length = if ch.closed then segSum ch.curves else segSum ch.curves + 1 := by
+  have h := gfold_length ch.curves [(⟨0, 0⟩ : Pt2 α)] (by simp)
+  have e : ch.curves.foldl (fun acc c => acc.dropLast ++ cubicBezier c.start c.control1 c.control2 c.end_ c.segments)
+      [(⟨0, 0⟩ : Pt2 α)] = ch.curves.foldl gstep [(⟨0, 0⟩ : Pt2 α)] := rfl
+  unfold Chain.genPoints
+  simp only [e]
+  split
+  · simp [h]
+  · simp [h]; omega
+
+/-- earlier points survive a step (only the last one is replaced) -/
+theorem gstep_prefix (acc : List (Pt2 α)) (c : Cubic α) (i : Nat) (hi : i + 1 < acc.length) :
+    (gstep acc c)[i]? = acc[i]? := by
+  unfold gstep
+  rw [List.getElem?_append_left (by simp; omega)]
+  simp [List.getElem?_dropLast, hi]
+
+theorem gfold_prefix : ∀ (cs : List (Cubic α)) (acc : List (Pt2 α)) (i : Nat), i + 1 < acc.length →
+    (cs.foldl gstep acc)[i]? = acc[i]?
+  | [], _, _, _ => rfl
+  | c :: cs, acc, i, hi => by
+    rw [List.foldl_cons, gfold_prefix cs (gstep acc c) i (by rw [gstep_length acc c (by omega)]; omega),
+      gstep_prefix acc c i hi]
+
+/-- the joint written by a step is the new curve's start point -/
+theorem gstep_joint (acc : List (Pt2 α)) (c : Cubic α) (h : 1 ≤ acc.length) :
+    (gstep acc c)[acc.length - 1]? = some c.start := by
+  unfold gstep
+  rw [List.getElem?_append_right (by simp)]
+  simp only [List.length_dropLast, Nat.sub_self]
+  exact cubic_first c.start c.control1 c.control2 c.end_ c.segments
+
+/-- **a chain passes through every knot, in order**: the point at position `Σ_{j<k} segments_j` is the
+start point of curve `k` (all segment counts ≥ 1) -/
+theorem gfold_knots : ∀ (cs : List (Cubic α)) (acc : List (Pt2 α)) (k : Nat) (c : Cubic α), 1 ≤ acc.length →
+    (∀ x ∈ cs, 1 ≤ x.segments) → cs[k]? = some c →
+    (cs.foldl gstep acc)[acc.length - 1 + segSum (cs.take k)]? = some c.start
+  | [], _, k, _, _, _, hk => by simp at hk
+  | x :: xs, acc, 0, c, h, hs, hk => by
+    simp only [List.getElem?_cons_zero, Option.some.injEq] at hk
+    subst hk
+    have hx := hs x (by simp)
+    rw [List.foldl_cons, List.take_zero]
+    simp only [segSum, List.map_nil, List.sum_nil, Nat.add_zero]
+    rw [gfold_prefix xs (gstep acc x) (acc.length - 1) (by rw [gstep_length acc x h]; omega)]
+    exact gstep_joint acc x h
+  | x :: xs, acc, k + 1, c, h, hs, hk => by
+    simp only [List.getElem?_cons_succ] at hk
+    have ih := gfold_knots xs (gstep acc x) k c (by rw [gstep_length acc x h]; omega)
+      (fun y hy => hs y (by simp [hy])) hk
+    rw [List.foldl_cons]
+    rw [gstep_length acc x h] at ih
+    have : acc.length - 1 + segSum ((x :: xs).take (k + 1)) = acc.length + x.segments - 1 + segSum (xs.take k) := by
+      simp [segSum]; omega
+    rw [this]; exact ih
+
+
+theorem segSum_take_lt (cs : List (Cubic α)) (k : Nat) (c : Cubic α) (hs : ∀ x ∈ cs, 1 ≤ x.segments)
+    (hk : cs[k]? = some c) : segSum (cs.take k) + 1 ≤ segSum cs := by
+  induction cs generalizing k with
+  | nil => simp at hk
+  | cons x xs ih =>
+    cases k with
+    | zero =>
+      have := hs x (by simp)
+      simp [segSum]; omega
+    | succ k =>
+      simp only [List.getElem?_cons_succ] at hk
+      have := ih k (fun y hy => hs y (by simp [hy])) hk
+      simp [segSum] at this ⊢; omega
+
+/-- **C08, chains pass through every knot in order** (open or closed): with `kₖ = Σ_{j<k} segmentsⱼ`,
+point `kₖ` of `gen_points` is the start point of curve `k` -/
+theorem genPoints_knots (ch : Chain α) (k : Nat) (c : Cubic α) (hs : ∀ x ∈ ch.curves, 1 ≤ x.segments)
+    (hk : ch.curves[k]? = some c) : ch.genPoints[segSum (ch.curves.take k)]? = some c.start := by
+  have h := gfold_knots ch.curves [(⟨0, 0⟩ : Pt2 α)] k c (by simp) hs hk
+  have hl := gfold_length ch.curves [(⟨0, 0⟩ : Pt2 α)] (by simp)
+  have hlt := segSum_take_lt ch.curves k c hs hk
+  have e : ch.curves.foldl (fun acc c => acc.dropLast ++ cubicBezier c.start c.control1 c.control2 c.end_ c.segments)
+      [(⟨0, 0⟩ : Pt2 α)] = ch.curves.foldl gstep [(⟨0, 0⟩ : Pt2 α)] := rfl
+  simp only [List.length_singleton, Nat.sub_self, Nat.zero_add] at h hl
+  unfold Chain.genPoints
+  simp only [e]
+  split
+  · rw [List.getElem?_dropLast, if_pos (by rw [hl]; omega)]; exact h
+  · exact h
+
+
+end GenPoints
+
 /-- the first published parameter, `i * (1/segments)`, misses the end point in floating point; in
 exact arithmetic both agree, which is why only the implementation run could expose it -/
 theorem paramLegacy_eq_param {α : Type} [Field α] (i n : Nat) : (paramLegacy i n : α) = param i n := by
